@@ -720,6 +720,9 @@ class Interp:
                 return True
             return False
         if isinstance(v, Sym) or getattr(v, "__pyvc_symbolic__", False):
+            ph = getattr(type(v), "pyvc_hasattr", None)
+            if ph is not None:
+                return self.truth(ph(v, name), f"hasattr(.{name})")
             return hasattr(type(v), name) or name in getattr(v, "extra_attrs", ())
         return hasattr(v, name)
 
